@@ -139,6 +139,11 @@ func opPut(g *G) bool {
 		if len(cand) > 0 {
 			o := cand[g.R.Intn(len(cand))]
 			a2, _ := g.amount(o.T)
+			if g.R.Chance(1, 4) {
+				a2 = fmtRat(new(big.Rat).Add(o.T, big.NewRat(1, 1)), 6)
+				g.bump("list:overdrawing-entry")
+				note += " (the extra entry overdraws)"
+			}
 			extra := chain.BasketCredit(o.Batch.Denom, a2)
 			if g.R.Bool() {
 				credits = append(credits, extra)
@@ -443,6 +448,53 @@ func opUpdateSell(g *G) bool {
 	if avail == nil {
 		avail = new(big.Rat)
 	}
+	if g.R.Chance(1, 6) && len(os) > 1 {
+		// mixed list: 2-4 updates drawn from ALL open orders (the signer's own, other sellers', repeats of an
+		// earlier entry) in random positions; the signer is the seller of the first entry
+		k := 2 + g.R.Intn(3)
+		var us []*market.MsgUpdateSellOrders_Update
+		var picked []*monitor.Order
+		foreign, repeats := 0, 0
+		signerKey := o.Seller
+		for i := 0; i < k; i++ {
+			var oi *monitor.Order
+			switch r := g.R.Intn(10); {
+			case i == 0:
+				oi = o
+			case r < 3 && len(picked) > 0:
+				oi = picked[g.R.Intn(len(picked))]
+				repeats++
+			default:
+				oi = os[g.R.Intn(len(os))]
+			}
+			if oi.Seller != signerKey {
+				foreign++
+			}
+			picked = append(picked, oi)
+			d := "stake"
+			if m := v.Markets[oi.Market]; m != nil {
+				d = m.Denom
+			}
+			a := oi.Ask
+			if a == nil {
+				a = big.NewInt(1)
+			}
+			q := oi.Qty.Raw
+			if oi.Qty.V != nil && g.R.Bool() {
+				q = fmtRat(new(big.Rat).Mul(oi.Qty.V, big.NewRat(int64(1+g.R.Intn(3)), 2)), 6)
+				if rat(q).Sign() == 0 {
+					q = "0.000001"
+				}
+			}
+			if g.R.Chance(1, 3) {
+				a = new(big.Int).Add(a, big.NewInt(int64(g.R.Intn(5))))
+			}
+			us = append(us, &market.MsgUpdateSellOrders_Update{SellOrderId: oi.ID, NewQuantity: q, NewAskPrice: bigCoin(d, a), DisableAutoRetire: oi.DisableAutoRetire})
+		}
+		g.bump(fmt.Sprintf("list:update-mixed(foreign=%d,repeats=%d)", min(foreign, 2), min(repeats, 2)))
+		g.Do(g.App.MsgUpdateSellOrders(idxOf(signerKey), us...), fmt.Sprintf("update %d orders in one message: %d of other sellers, %d repeats", k, foreign, repeats))
+		return true
+	}
 	if g.R.Chance(1, 8) && cur.Sign() > 0 {
 		// duplicates within one message: the same sell order 2-3 times
 		up := fmtRat(new(big.Rat).Add(cur, new(big.Rat).Mul(avail, big.NewRat(1, 2))), 6)
@@ -692,6 +744,31 @@ func opBuy(g *G) bool {
 					note += " + dust (over-asking after the two fills)"
 				}
 				g.bump("buy:same-order-twice")
+			}
+		}
+	case 3:
+		// the same order twice, each time for its FULL quantity: the second entry names an order the first one
+		// has just removed (the message must fail as a whole); most interesting when the seller has another open
+		// order for the same batch, whose escrow the second fill would eat
+		if o.Qty.V != nil && o.Qty.V.Sign() > 0 && o.Ask != nil {
+			if mk := v.Markets[o.Market]; mk != nil {
+				full := fmtRat(o.Qty.V, 6)
+				mf := bigCoin(mk.Denom, buyerFeeFloor(v, o.Qty.V, o.Ask))
+				a := chain.BuyOrder(o.ID, full, bigCoin(mk.Denom, o.Ask), o.DisableAutoRetire, g.jur(), "", mf)
+				b := chain.BuyOrder(o.ID, full, bigCoin(mk.Denom, o.Ask), o.DisableAutoRetire, g.jur(), "", mf)
+				orders = []*market.MsgBuyDirect_Order{a, b}
+				note = "same order twice in one message (full + full): the second names a removed order"
+				sibling := false
+				for _, o2 := range os {
+					if o2.ID != o.ID && o2.Seller == o.Seller && o2.Batch == o.Batch {
+						sibling = true
+					}
+				}
+				if sibling {
+					g.bump("buy:same-order-full-twice(seller-has-sibling-order)")
+				} else {
+					g.bump("buy:same-order-full-twice")
+				}
 			}
 		}
 	case 2:
